@@ -99,6 +99,23 @@ Definition spe_phase (budget count fails : Z) : pphase * Q :=
   (spe_phase_of (success_progress budget count fails) (total_progress budget count) (success_proportion count fails),
    success_progress budget count fails).
 
+(* SPENextPoints.view: how the request's budget reaches get_experiment_phase --
+     budget = self.params["metrics_info"].observation_budget or self.domain.dim * SPE_PHANTOM_BUDGET_FACTOR
+   Python's `or` yields its right operand whenever the left one is falsy: None (no budget in the request) AND an integer
+   zero (a Python int as well as a NumPy integer).  `dim` is the number of parameters of the request's domain (not the
+   one-hot dimension).  This derivation is what makes "budget >= 1" of spe_phase true for every request. *)
+Definition SPE_PHANTOM_BUDGET_FACTOR : Z := 50.
+Definition spe_view_budget (ob : option Z) (dim : Z) : Z :=
+  match ob with
+  | Some b => if (b =? 0)%Z then dim * SPE_PHANTOM_BUDGET_FACTOR else b
+  | None => dim * SPE_PHANTOM_BUDGET_FACTOR
+  end.
+(* the (phase tag, progress) the view serves: count = len(points_sampled.points), fails = sum(points_sampled.failures).
+   None = the division by a zero budget (ZeroDivisionError with Python ints; inf / nan with NumPy integers) *)
+Definition spe_view_phase (ob : option Z) (dim count fails : Z) : option (pphase * Q) :=
+  let b := spe_view_budget ob dim in
+  if (b =? 0)%Z then None else Some (spe_phase b count fails).
+
 (* (gamma, proposal_factor); `u` is the numpy.random.uniform(0.0, 0.5) draw *)
 Definition spe_solver_options (p : pphase) (progress u : Q) : Q * Q :=
   match p with
